@@ -152,6 +152,13 @@ pub fn check(case: &Case) -> CaseResult {
         r.class_if(fc_class(a), "fc_class");
     }
     r.class_if(accepted.len() >= 3, "three_or_more_args");
+    // the asynchronous connection must write the same bytes (C06 quantifies over what reaches the
+    // server, whichever connection flavour sent it)
+    let max_write = [usize::MAX, 1, 5, 32][(case.how.len() + accepted.len()) % 4];
+    if let Err(e) = cmdlab::both_flavours_agree(&cmd, None, max_write) {
+        r.fail(e);
+        return r;
+    }
 
     match case.list {
         None => {
